@@ -3,7 +3,41 @@
 
 namespace sim {
 
+Json::Value genHookKillPlanWith(Rng& rng, const KillGenOpts& o);
+KillRun runHookKillPlan();
+
+// Hook mode: the fallback order must survive a kill cycle that is suspended
+// for a prekill hook and resumed on a later tick (the candidate stack is
+// serialised and rebuilt). Static world, one ruleset, plugins whose ranking
+// does not depend on the tick, so that the attempts of one kill cycle -
+// spread over several invocations - can be judged against the depth-first
+// order computed when the cycle started.
+static Json::Value genC03Hook(Rng& rng) {
+  KillGenOpts o;
+  o.separated = true;
+  o.ties = false;
+  o.prefP = rng.pick({0.3, 0.6});
+  o.oomGroupP = rng.pick({0.1, 0.35});
+  o.killFailP = rng.pick({0.7, 1.0, 1.6});
+  o.recursiveP = 0.8;
+  o.churnP = 0.0;
+  o.maxRulesets = 1;
+  o.minTicks = 5;
+  o.maxTicks = 12;
+  o.kernelKillP = 0.0;
+  o.plugins = {"kill_by_swap_usage", "kill_by_pressure"};
+  Json::Value plan = genHookKillPlanWith(rng, o);
+  plan["ops"] = Json::Value(Json::arrayValue);
+  plan["mode"] = "hook";
+  for (auto& rs : plan["config"]["rulesets"])
+    rs["prekill_hook_timeout"] = rng.pick<std::string>({"5", "30", "30"});
+  plan["scripts"]["pk0_det"] = "C";
+  return plan;
+}
+
 static Json::Value genC03(Rng& rng) {
+  if (rng.chance(0.3))
+    return genC03Hook(rng);
   KillGenOpts o;
   o.separated = true;
   o.ties = rng.chance(0.25);
@@ -15,7 +49,99 @@ static Json::Value genC03(Rng& rng) {
   return genKillPlan(rng, o);
 }
 
+static void runC03Hook() {
+  KillRun kr = runHookKillPlan();
+  if (!kr.dr.ran) {
+    if (R.violations.empty())
+      violate("C03.valid-config-rejected",
+              "stage=" + kr.dr.errorStage + " " + kr.dr.error);
+    return;
+  }
+  const auto& L = R.log;
+  int checked = 0, attempts = 0, multi = 0, resumedCycles = 0;
+  std::map<std::string, std::vector<size_t>> byWid;
+  for (size_t i = 0; i < kr.invs.size() && i < kr.enterSnaps.size(); i++)
+    byWid[kr.invs[i].wid].push_back(i);
+  for (auto& kv : byWid) {
+    std::vector<size_t> chain;
+    auto finalize = [&](bool open) {
+      if (chain.empty())
+        return true;
+      const Invocation& first = kr.invs[chain[0]];
+      Invocation merged = first;
+      merged.attempts.clear();
+      for (size_t idx : chain)
+        for (const auto& a : kr.invs[idx].attempts)
+          merged.attempts.push_back(a);
+      merged.complete = !open;
+      OrderCheck oc{kr.enterSnaps[chain[0]], kr.worldAt(first.tick),
+                    kr.temps[std::min<size_t>(first.tick, kr.temps.size() - 1)],
+                    kr.env, merged};
+      oc.openEnded = open;
+      oc.run();
+      attempts += (int)merged.attempts.size();
+      if (merged.attempts.size() > 1)
+        multi++;
+      if (chain.size() > 1)
+        resumedCycles++;
+      size_t nInv = chain.size();
+      chain.clear();
+      if (oc.abstained) {
+        abstain("ranking-ambiguous");
+        return true;
+      }
+      checked++;
+      if (!oc.err.empty()) {
+        std::string seq;
+        for (auto& a : merged.attempts)
+          seq += " /" + a.rel + (a.signalsOk > 0 || a.kernel ? "(+)" : "(0)");
+        violate("C03." + oc.errClause,
+                "kill cycle of " + first.plugin + " started at tick " +
+                    std::to_string(first.tick) + " and spread over " +
+                    std::to_string(nInv) +
+                    " invocations (prekill hook waits) [" +
+                    jstr(Json::Value(first.args.count("cgroup")
+                                         ? first.args.at("cgroup")
+                                         : "")) +
+                    (argTrue(first.args, "recursive") ? " recursive" : "") +
+                    "]: " + oc.err + "; observed attempts:" + seq);
+        return false;
+      }
+      return true;
+    };
+    for (size_t idx : kv.second) {
+      const Invocation& inv = kr.invs[idx];
+      bool hasFire = false;
+      for (size_t k = inv.begin + 1; k < inv.end && k < L.size(); k++)
+        if (L[k].kind == "hook" && L[k].a == "fire")
+          hasFire = true;
+      if (chain.empty() && inv.ret == 'A' && inv.attempts.empty() && !hasFire)
+        continue; // a sampling tick, nothing ranked yet
+      chain.push_back(idx);
+      if (!inv.complete) {
+        if (!finalize(true))
+          return;
+        continue;
+      }
+      if (inv.ret != 'A')
+        if (!finalize(false))
+          return;
+    }
+    if (!finalize(true))
+      return;
+  }
+  probe("invocations-checked", checked);
+  probe("attempts", attempts);
+  probe("invocations-with-fallback", multi);
+  probe("kill-cycles-resumed-after-hook", resumedCycles);
+  R.nontrivial = attempts > 0;
+}
+
 static void runC03() {
+  if (R.plan.get("mode", "").asString() == "hook") {
+    runC03Hook();
+    return;
+  }
   KillRun kr = runKillPlan();
   if (!kr.dr.ran) {
     if (R.violations.empty())
